@@ -22,7 +22,7 @@ def handleC10 (f : List String) : Res :=
       match pInts impl with
       | some o =>
         let r := specIf "input-unmodified" (unch == "1") r
-        let r := specIf "result-valid-chain" (isChainB o) r
+        let r := specIf "result-valid-chain" (isChainO o) r
         let r := specIf "subsequence" (isSublist o c) r
         let r := specIf "first-is-1" (o.head? == some 1) r
         let r := specIf "same-last" (o.getLast? == c.getLast?) r
